@@ -627,6 +627,12 @@ func (ex *Exec) applyModifies(c *Contract, env map[string]Val, st *State) {
 				ex.havocAll(st, "modifies * of "+c.Name)
 				continue
 			}
+			if isHeldKey(loc.key) {
+				// a callee returns with the lock set it was entered with (its own lock.balance obligation; A-LOCKBAL for
+				// assumed contracts): listing a mutex in modifies lets it lock and unlock, not keep the lock
+				ex.used["A-LOCKBAL: lock state is unchanged by code that is havocked (callees return with the lock set they were entered with; proved for units under contract, assumed for external code)"] = true
+				continue
+			}
 			h := ex.heapGet(st, loc.key, loc.sort)
 			fresh := ex.freshConst("mod", loc.sort)
 			if wf := wfFact(loc.key, fresh, st.Top); wf != "" {
